@@ -37,6 +37,8 @@ def run_for(ctx, prop):
     fns = run.PROPERTY_FUNCTIONS.get(prop)
     if not fns:
         return
+    from ..pyvc import audit
+    audit.run(ctx, 8000 if ctx.tier == 'quick' else 60000)
     res = run.run_functions(ctx, fns)
     ctx._ded = {'failed': [], 'foreign_failed': [], 'results': res}
     for r in res:
@@ -57,6 +59,9 @@ def run_for(ctx, prop):
         for p in r['probes']:
             if p['name'].endswith(':probe:entry') and p['result'] == 'refutable':
                 raise RuntimeError('contract of %s has a contradictory precondition (vacuity guard)' % q)
+        rets = [p for p in r['probes'] if ':probe:return' in p['name']]
+        if rets and all(p['result'] == 'refutable' for p in rets):
+            raise RuntimeError('every probed return path of %s has contradictory assumptions (vacuity guard)' % q)
         for o in r['obligations']:
             owner = owner_of(q, o['tags'], fn_owner)
             if owner == prop:
